@@ -178,6 +178,7 @@ type snapRun struct {
 	logw     *ringLog
 	rejoin   bool
 	outDrops int
+	closed   bool
 }
 
 func openSnap(r *Run, img map[string][]byte, minCompact int, rejoin bool, rec *recorder, clockStart uint64) (*snapRun, error) {
@@ -221,7 +222,10 @@ func (sr *snapRun) feed(e serf.Event) {
 }
 
 func (sr *snapRun) close() {
-	close(sr.shutdown)
+	if !sr.closed {
+		close(sr.shutdown)
+	}
+	sr.closed = true
 	synctest.Wait()
 	sr.snap.Wait()
 	synctest.Wait()
